@@ -108,6 +108,9 @@ class Vflow:
         logged instead of waiting for all four listeners."""
         self.wdir, self.ports, self.binary, self.workers, self.extra_args = wdir, ports, binary, workers, list(extra_args)
         self.pidns, self.ready = pidns, ready
+        # listeners that report "… is running (UDP": four, less those switched off on the command line
+        self.expect_running = 4 - sum(1 for a in self.extra_args if a in ("-ipfix-enabled=false", "-netflow9-enabled=false",
+                                                                          "-netflow5-enabled=false", "-sflow-enabled=false"))
         self.proc = None
         self.errf = None
 
@@ -154,7 +157,7 @@ class Vflow:
                 return False
             try:
                 lg = open(self.errpath, "rb").read()
-                if (self.ready in lg) if self.ready else (lg.count(b"is running (UDP") >= 4):
+                if (self.ready in lg) if self.ready else (lg.count(b"is running (UDP") >= self.expect_running):
                     return True
             except OSError:
                 pass
@@ -1138,28 +1141,69 @@ def shutdown_cycles(pid, tier, seed):
     return r
 
 
-def startup_cycle(n, seed, binary):
-    """start the collector with the shipped ipfix.elements installed in its configuration directory while exporters are
+# extension elements an installation may add to its ipfix.elements: (abstract data type, octets, the octets sent, the JSON value)
+EXT_TYPES = [("unsigned32", 4, bytes([0, 0, 0, 42]), "42"), ("unsigned16", 2, bytes([1, 2]), "258"), ("unsigned64", 8, bytes(7) + b"\x07", "7"),
+             ("ipv4Address", 4, bytes([10, 0, 0, 2]), '"10.0.0.2"'), ("unsigned8", 1, bytes([200]), "200")]
+STARTUP_VARIANTS = {"all-on": [], "ipfix-off": ["-ipfix-enabled=false"], "nf9-off": ["-netflow9-enabled=false"],
+                    "both-off": ["-ipfix-enabled=false", "-netflow9-enabled=false"]}
+
+
+def elements_file_with(ext_id, ext_type):
+    """the text of an ipfix.elements file: the shipped one + one extension element (enterprise 0, an id the shipped table
+    does not use) of the given abstract data type"""
+    txt = open(os.path.join(C.REPO, "scripts", "ipfix.elements")).read()
+    lines = txt.split("\n")
+    # the block of enterprise 0 starts at the line "0:" and ends before the next top-level key (or at the end)
+    i0 = lines.index("0:")
+    end = next((j for j in range(i0 + 1, len(lines)) if lines[j] and not lines[j].startswith(" ")), len(lines))
+    while end > i0 and not lines[end - 1].strip():
+        end -= 1
+    ext = ["  %d:" % ext_id, "  - verifExtensionElement", "  - %s" % ext_type]
+    return "\n".join(lines[:end] + ext + lines[end:]) + ("" if txt.endswith("\n") and lines[-1] == "" else "\n")
+
+
+def startup_cycle(n, seed, binary, params=None):
+    """start the collector with an ipfix.elements file installed in its configuration directory while exporters are
     already sending NetFlow v9 and IPFIX (templates + data): it must come up, stay up and stop cleanly (C20: both load
-    paths; C01: no datagram terminates the process)"""
+    paths; C01: no datagram terminates the process).
+
+    The installed file is the cycle's own: the shipped one + one EXTENSION element (an id the built-in table does not have,
+    a random abstract data type), and the templates the exporters announce use that element (F34). The information model
+    is shared by the IPFIX and the NetFlow v9 decoder, so whichever of the two is switched on (`variant`: both, IPFIX off,
+    NetFlow v9 off, both off — then nothing decodes and no load is needed) must publish the element decoded with the
+    FILE's type: decoding of one protocol must not depend on the switch of the other. returns (impl_line, verdict, sample)"""
     import threading
     rng = random.Random(seed * 7919 + n)
+    params = dict(params or {})
     wdir = os.path.join(C.WORK, "e2e-start-%d-%d-%d" % (os.getpid(), seed, n))
     shutil.rmtree(wdir, ignore_errors=True)
     os.makedirs(wdir)
-    installed = n % 4 != 3            # three start-ups in four with the file present, one without
+    installed = bool(params["elements_file"]) if "elements_file" in params else n % 4 != 3   # three start-ups in four with the file present
+    variant = params.get("variant") or ["all-on", "ipfix-off", "nf9-off", "all-on", "ipfix-off", "both-off", "ipfix-off", "nf9-off"][(n // 4) % 8]
+    ext_id = int(params.get("ext_id") or rng.randint(434, 32767))
+    tname, tlen, toctets, tjson = next(t for t in EXT_TYPES if t[0] == params["ext_type"]) if "ext_type" in params else EXT_TYPES[rng.randrange(len(EXT_TYPES))]
+    sample = {"elements_file": installed, "variant": variant}
     if installed:
-        shutil.copy(os.path.join(C.REPO, "scripts", "ipfix.elements"), os.path.join(wdir, "ipfix.elements"))
-    vf = Vflow(wdir, free_ports(5), binary)
-    sample = {"elements_file": installed}
+        open(os.path.join(wdir, "ipfix.elements"), "w").write(elements_file_with(ext_id, tname))
+        sample.update({"ext_id": ext_id, "ext_type": tname})
+    vf = Vflow(wdir, free_ports(5), binary, extra_args=STARTUP_VARIANTS[variant])
+    probed = [pr for pr in ("nf9", "ipfix") if installed and not (pr == "ipfix" and "ipfix" in variant or pr == "nf9" and "nf9" in variant) and variant != "both-off"]
     stop = threading.Event()
     sent = [0]
 
     def blast():
         s = sender(2 + rng.randrange(5))
         fields = [(8, 4), (12, 4), (1, 8), (2, 8)]
+        if installed:
+            fields = [(ext_id, tlen)] + fields
         tpl9 = v9_msg([tpl_set("nf9", 300, fields)], 1)
         tpl10 = ipfix_msg([tpl_set("ipfix", 300, fields)], 1)
+
+        def dset():
+            # three records; the extension element (first field) carries the octets whose rendering the oracle knows
+            rl = sum(l for _, l in fields) - (tlen if installed else 0)
+            recs = b"".join((toctets if installed else b"") + bytes(rng.randrange(256) for _ in range(rl)) for _ in range(3))
+            return struct.pack(">HH", 300, 4 + len(recs)) + recs
         k = 0
         while not stop.is_set():
             try:
@@ -1167,8 +1211,8 @@ def startup_cycle(n, seed, binary):
                 if k % 50 == 0:
                     s.sendto(tpl9, ("127.0.0.1", p[3]))
                     s.sendto(tpl10, ("127.0.0.1", p[0]))
-                s.sendto(v9_msg([data_set(300, fields, rng, 3)], k), ("127.0.0.1", p[3]))
-                s.sendto(ipfix_msg([data_set(300, fields, rng, 3)], k), ("127.0.0.1", p[0]))
+                s.sendto(v9_msg([dset()], k), ("127.0.0.1", p[3]))
+                s.sendto(ipfix_msg([dset()], k), ("127.0.0.1", p[0]))
                 sent[0] += 2
             except OSError:
                 pass                               # nothing listens yet (ICMP port unreachable): keep knocking
@@ -1206,7 +1250,30 @@ def startup_cycle(n, seed, binary):
             return "raced", "fail:startup race / crash report after a start under traffic (ipfix.elements %s): %s" % (
                 "installed" if installed else "absent", log[max(0, i - 20):i + 900].replace("\n", " | ")), sample
         sample["decoded"] = log.count('"DataSets":[[')
-        return "started=1 alive=1 clean=1", "ok", sample
+        # the extension element of the installed file: every decoder that is switched on publishes it with the file's type
+        want = '{"I":%d,"V":%s}' % (ext_id, tjson)
+        seen = {}
+        for pr in probed:
+            agent_lines = [l for l in log.split("\n") if '"DataSets":[[' in l and (('"Version":9' in l) == (pr == "nf9"))]
+            missing = ("Netflow element key (%d) not exist" if pr == "nf9" else "IPFIX element key (%d) not exist") % ext_id
+            seen[pr] = {"published": sum(1 for l in agent_lines if want in l), "not_exist": log.count(missing),
+                        "other": next((l[l.find('"DataSets"'):][:120] for l in agent_lines if want not in l), None)}
+        if probed:
+            sample["extension_element"] = seen
+        for pr in probed:
+            name = {"nf9": "NetFlow v9", "ipfix": "IPFIX"}[pr]
+            if seen[pr]["not_exist"]:
+                i = log.find("element key (%d) not exist" % ext_id)
+                return "ext-unknown %s" % pr, ("fail:not-loaded the installed ipfix.elements adds element %d (%s) and the %s templates use it, but the %s decoder "
+                                                "does not know it (%d x %r, %d messages with it published) when started with %s: decoding depends on the switch of another protocol"
+                                                % (ext_id, tname, name, name, seen[pr]["not_exist"], log[max(0, i - 8):i + 40].replace("\n", " "), seen[pr]["published"],
+                                                   " ".join(STARTUP_VARIANTS[variant]) or "the default switches")), sample
+            if seen[pr]["other"]:
+                return "ext-differs %s" % pr, "fail:not-loaded element %d of the installed ipfix.elements (%s, octets %s) must be published as %s by the %s decoder; published: %s" % (
+                    ext_id, tname, toctets.hex(), want, name, seen[pr]["other"]), sample
+        if probed and not all(seen[pr]["published"] for pr in probed):
+            return "ext-unseen", "", sample           # no data set of a probed protocol was published in the 0.4 s (loss, slow start): no verdict
+        return "started=1 alive=1 clean=1" + (" ext=%s" % "+".join(probed) if probed else ""), "ok", sample
     finally:
         stop.set()
         if vf.proc and vf.proc.poll() is None:
@@ -1226,10 +1293,24 @@ def startup_cycles(pid, tier, seed):
         return r
     # one installed-file start-up in three shows the unsynchronised access on the unrepaired tree: 32 cycles miss it with p < 1e-4
     n = 32 if tier == "quick" else 320
+    jobs = [(i, None) for i in range(n)]
+    if pid == "C06":
+        # C06 (NetFlow v9 records decoded as their templates describe, for templates over the LOADED information model): the
+        # start-ups whose NetFlow v9 exporter uses an extension element of the installed file, with the IPFIX listener off / on
+        n = 8 if tier == "quick" else 64
+        jobs = [(i, {"elements_file": True, "variant": "ipfix-off" if i % 4 else "all-on"}) for i in range(n)]
+    # the witnesses of corpus/<pid>/e2e-startup--*.txt first (one JSON object per line = parameters of a cycle)
+    wdir = os.path.join(C.ROOT, "corpus", pid)
+    wit = []
+    if os.path.isdir(wdir):
+        for fn in sorted(os.listdir(wdir)):
+            if fn.startswith("e2e-startup--") and fn.endswith(".txt"):
+                wit += [json.loads(l) for l in open(os.path.join(wdir, fn)) if l.strip() and not l.startswith("#")]
+    jobs = [(1000 + k, w) for k, w in enumerate(wit)] + jobs
     import concurrent.futures as cf
     with cf.ThreadPoolExecutor(max_workers=6) as ex:
-        futs = [ex.submit(startup_cycle, i, seed, binary) for i in range(n)]
-        for i, f in enumerate(futs):
+        futs = [ex.submit(startup_cycle, i, seed, binary, w) for i, w in jobs]
+        for (i, _), f in zip(jobs, futs):
             line, verdict, sample = f.result()
             r.evaluations += 1
             case = "startup-cycle %d seed %d %s" % (i, seed, json.dumps(sample))
@@ -1241,7 +1322,7 @@ def startup_cycles(pid, tier, seed):
                 r.oracle_fail.append({"kind": "e2e-startup", "seed": seed, "session": [case], "verdict": verdict, "impl": line})
             if len(r.samples) < 3:
                 r.samples.append({"case": case, "impl": line})
-    r.summary = {"cycles": n, "ok": r.oracle_ok, "failed": len(r.oracle_fail), "distribution": r.stats}
+    r.summary = {"cycles": len(jobs), "ok": r.oracle_ok, "failed": len(r.oracle_fail), "distribution": r.stats}
     return r
 
 
@@ -1393,7 +1474,7 @@ def replay(d):
     elif tag in ("same-pid", "same-pid-witness"):
         res = same_pid_cycle(n if tag == "same-pid" else 1000 + n, seed, binary, {k: sample[k] for k in ("signal",) if k in sample})
     elif tag == "startup-cycle":
-        res = startup_cycle(n, seed, binary)
+        res = startup_cycle(n, seed, binary, {k: sample[k] for k in ("elements_file", "variant", "ext_id", "ext_type") if k in sample})
     elif tag == "redefinition-cycle":
         res = redefinition_cycle(n, seed, binary, int(sample.get("workers", 4)))
     else:
